@@ -35,7 +35,8 @@ type Config struct {
 	SleepBudget    int     `json:"sleep_budget"`
 	KeysIndexMax   int     `json:"keys_index_max"`
 	KeysIndexMin   int     `json:"keys_index_min"`
-	VFS            bool    `json:"vfs,omitempty"` // route file operations through the recording / fault-injecting file layer
+	NoLLInit       bool    `json:"no_ll_init,omitempty"` // map backing: LowerLevelUpdate only, no LowerLevelInit
+	VFS            bool    `json:"vfs,omitempty"`        // route file operations through the recording / fault-injecting file layer
 	KeepFiles      bool    `json:"keep_files,omitempty"`
 	ReadOnly       bool    `json:"read_only,omitempty"`
 	CompactionSync bool    `json:"compaction_sync,omitempty"`
@@ -64,6 +65,12 @@ func (c Config) String() string {
 	}
 	if c.MergeOp {
 		s += "/mo"
+	}
+	if c.NoLLInit {
+		s += "/noinit"
+	}
+	if c.MaxPre != 0 && c.MaxPre != 2 {
+		s += fmt.Sprintf("/pre%d", c.MaxPre)
 	}
 	if c.MaxDirtyOps > 0 {
 		s += fmt.Sprintf("/mdo%d", c.MaxDirtyOps)
@@ -273,7 +280,9 @@ func (w *World) open() {
 			w.coll, openErr = moss.NewCollection(w.collOptions())
 		case "map":
 			co := w.collOptions()
-			co.LowerLevelInit = newMapSnapshot(w.ll)
+			if !w.cfg.NoLLInit {
+				co.LowerLevelInit = newMapSnapshot(w.ll)
+			}
 			co.LowerLevelUpdate = w.gate(w.mapUpdate)
 			w.coll, openErr = moss.NewCollection(co)
 		case "store":
